@@ -23,7 +23,9 @@ type c02Case struct {
 	ReAny    *Res     `json:"re_any"`
 	Panic    bool     `json:"panic"`
 	Unstable bool     `json:"unstable"`
+	Ws       *wsRes   `json:"ws,omitempty"` // what websocketTransport.Receive made of the same bytes (in a process of its own)
 	term     string
+	treeTerm string // "(Some (tree, uris))" for inputs in the model's reach, else None
 }
 
 func sortTree(j J) J {
@@ -186,6 +188,7 @@ func (c *c02Case) finish(tree *J) {
 		typed[i] = c.Typed[i].Coq()
 		re[i] = optRes(c.ReTyped[i])
 	}
+	c.treeTerm = coqfmt.Some("(" + tree.Coq() + ", " + coqURITable(uris) + ")")
 	c.term = coqfmt.App("CTree", coqfmt.Bool(c.InDomain), tree.Coq(), coqURITable(uris),
 		coqfmt.List(typed), c.Any.Coq(), coqfmt.List(re), optRes(c.ReAny))
 }
@@ -345,9 +348,11 @@ const numMutations = 11 + 6
 func runC02(env *Env) error {
 	env.Header = codecHeader + "Corr.Codec Corr.C02."
 	env.ShardSize = 150
-	env.Rule = "trees: every single structural mutation (11 replacement values, delete, alien member, case variant of the name, duplicate member, swap, added known field) at every position of every nesting level of a corpus of valid encodings of generated envelopes, plus PRNG double mutations and hand-written regression trees; bytes: truncations at every offset, concatenations, byte flips. Each input goes to the 5 typed decoders and the TCP receive path; accepted results are re-encoded and re-decoded. Non-trivial: at least one decoder accepted the input or a mutation hit nesting level >= 2; distinct by input bytes."
+	env.Rule = "trees: every single structural mutation (11 replacement values, delete, alien member, case variant of the name, duplicate member, swap, added known field) at every position of every nesting level of a corpus of valid encodings of generated envelopes, plus PRNG double mutations and hand-written regression trees; bytes: truncations at every offset, concatenations, byte flips. Each input goes to the 5 typed decoders, the TCP receive path and (as one text frame, in a process of its own because a panic there cannot be recovered) the WebSocket receive path; accepted results are re-encoded and re-decoded. Non-trivial: at least one decoder accepted the input or a mutation hit nesting level >= 2; distinct by input bytes."
 	g := &gen{rng: env.Rng}
 	seen := map[string]bool{}
+	wsIso := &wsIsolated{}
+	defer wsIso.stop()
 	addBytes := func(b []byte, mutation string) {
 		if seen[string(b)] {
 			return
@@ -360,6 +365,19 @@ func runC02(env *Env) error {
 		}
 		c.finish(tree)
 		env.Add(c.term, c)
+		// the same bytes as one text frame into a real WebSocket transport
+		if w := wsIso.decode(b); w.Tag != "unsupported" {
+			wc := *c
+			wc.Ws = &w
+			tt := wc.treeTerm
+			if tt == "" {
+				tt = coqfmt.None
+			}
+			env.Add(coqfmt.App("CWs", coqfmt.Bool(c.InDomain && c.IsTree), tt, w.Term), &wc)
+			env.Count("ws-result=" + w.Tag)
+		} else {
+			env.Count("ws-unavailable")
+		}
 		env.Count("mutation=" + strings.SplitN(mutation, ":", 2)[0])
 		accepted := false
 		for _, r := range append(append([]Res(nil), c.Typed...), c.Any) {
